@@ -51,6 +51,8 @@ inductive Out where
   | state (s : CState)
   /-- ... and the live bindings of `registeredTopics`, sorted by ID -/
   | reg (bindings : List (UInt16 × Bytes))
+  /-- ... and the datagrams queued for the sleeping client -/
+  | buf (queued : List Bytes)
   deriving Repr, DecidableEq
 
 structure Cfg where
@@ -154,6 +156,7 @@ structure Gw where
   endedEmitted : Bool := false
   sampledState : CState := .disconnected         -- last values reported by the instrumentation
   sampledReg : List (UInt16 × Bytes) := []
+  sampledBuf : List Bytes := []
   deriving Repr
 
 def Gw.init (cfg : Cfg) (idMin idMax : UInt16) : Gw :=
@@ -731,7 +734,9 @@ def liveRegistry (g : Gw) : List (UInt16 × Bytes) :=
 def sample (g : Gw) : Gw :=
   let g := if g.st ≠ g.sampledState then ({ g with sampledState := g.st }).emit (.state g.st) else g
   let r := g.liveRegistry
-  if r ≠ g.sampledReg then ({ g with sampledReg := r }).emit (.reg r) else g
+  let g := if r ≠ g.sampledReg then ({ g with sampledReg := r }).emit (.reg r) else g
+  let b := g.buffer.map fun it => encode it.pkt
+  if b ≠ g.sampledBuf then ({ g with sampledBuf := b }).emit (.buf b) else g
 
 /-- one event at time `t` (without the instrumentation) -/
 def stepCore (g : Gw) (t : Nat) (ev : Event) : Gw :=
